@@ -14,7 +14,8 @@ META = {
                    "driver completes only on the connection's Ready edge after finished.send(); (C07.5) every protocol state has a graceful-shutdown arm that resolves to hyper's "
                    "own graceful_shutdown (no self-recursion) and a connection still sniffing is cancelled, ReadVersion::poll reporting the cancellation before reading; "
                    "(C07.6) CloseSender::send drops the watch receiver and the CloseReciever future awaits Sender::closed; (E-WAKER) on the server's poll functions."
-                   " New: C07.7 - the shutdown broadcast is level-triggered (watch channels; no Notify::notify_waiters in the server), so a connection spawned but not yet polled still sees the signal.",
+                   " New: C07.7 - the shutdown broadcast is level-triggered (watch channels; no Notify::notify_waiters in the server), so a connection spawned but not yet polled still sees the signal."
+                   " As built now: C07.1 - C07.3 are also decided as one trace table of GracefulShutdown::poll (gstable.py: polls of the signal / the all-closed future / poll_once as nondeterministic steps, 28 (trace, result) pairs compared with a reference model of the loop).",
     "trusted_base": ["rustc type/borrow checker", "hyper finishes in-flight exchanges after graceful_shutdown and closes idle keep-alive connections", "tokio watch::Sender::closed resolves when all receivers are dropped",
                      "the executor keeps spawned connection tasks running after the serving future completes"],
     "assumptions": [],
